@@ -178,9 +178,19 @@ def case_adaptive(ctx, index, rng: random.Random):
     shift = rng.choice([None, None, 0.5, 0.25])
     n = rng.randint(1, 50 if ctx.quick else 150)
     centre = [rng.choice([0.0, 3.0, -7.0, 100.0]) for _ in range(d)]
+    if rng.random() < 0.2:
+        # large offsets (counters, time stamps): bins of different chunks differ by far less than numpy's allclose tolerance,
+        # yet they are different bins - the sum lives on the union of the ranges, not index by index
+        widths = [rng.choice([1.0, 0.5, 2.5, 60.0]) for _ in range(d)]
+        centre = [rng.choice([1e5, 1e6, 1.7e9, -3e7]) for _ in range(d)]
+        shift = rng.choice([None, 0.5])
     spread = rng.choice([3, 10, 30]) if d == 1 else rng.choice([3, 8])
     rows = np.array([[centre[ax] + widths[ax] * (rng.randint(-spread, spread) + rng.choice([0.0, 0.5, rng.random()])) for ax in range(d)] for _ in range(n)], dtype=float)
     wts, wkind = gen.weights(rng, n)
+    approx = False
+    if rng.random() < 0.15:
+        # decimal weights (sums carry rounding): the totals are compared within rounding, nothing may be refused or lost for it
+        wts, wkind, approx = [rng.choice([0.1, 0.2, 0.3, 0.7, 1.1]) for _ in range(n)], "decimal", True
     nchunks = rng.randint(2, 6)
     cuts = sorted(rng.randint(0, n) for _ in range(nchunks - 1))
     idx = [0] + cuts + [n]
@@ -247,17 +257,22 @@ def case_adaptive(ctx, index, rng: random.Random):
                 rec.fail(monitor="C05.partition.equiv", op=how, symptom="an operand is ill-formed after the addition", diff=["wellformed"], detail={"operand": i, "problems": probs, **desc})
         s1, s2 = snap.snapshot(total), snap.snapshot(total2)
         m1, m2 = snap.interval_map(s1), snap.interval_map(s2)
-        if m1 != m2:
+        if approx and m1 is not None and m2 is not None and set(m1) == set(m2):
+            orders_differ = any(not np.allclose(m1[k_], m2[k_], rtol=1e-12, atol=1e-12) for k_ in m1)
+        else:
+            orders_differ = m1 != m2
+        if orders_differ:
             rec.fail(monitor="C05.partition.equiv", op=f"{how} vs {how2}", symptom="two summation orders give different histograms", diff=["frequencies"], detail=desc)
         bins = [snap.arr_values(t) for t in s1["bins"]]
         w = None if wts is None else np.asarray(wts, dtype=float)
         shape, f, e, missed, tot, nanw, st = model.bin_nd(bins, [False] * d, rows, w)
         exp_f, exp_e = model.dense(shape, f), model.dense(shape, e)
         got_f, got_e = snap.arr_values(s1["frequencies"]).astype(float), snap.arr_values(s1["errors2"]).astype(float)
-        if got_f.shape != exp_f.shape or not np.array_equal(got_f, exp_f) or missed != 0:
+        same_f = got_f.shape == exp_f.shape and (np.allclose(got_f, exp_f, rtol=1e-12, atol=1e-12) if approx else np.array_equal(got_f, exp_f))
+        if not same_f or missed != 0:
             rec.fail(monitor="C05.partition.equiv", op=how, symptom="sum of adaptive chunk histograms differs from the histogram of all data over the final bins",
                      diff=["frequencies"], detail={"lost": float(missed), "got_total": float(got_f.sum()), "expected_total": float(tot), **desc})
-        elif not np.array_equal(got_e, exp_e):
+        elif not (np.allclose(got_e, exp_e, rtol=1e-12, atol=1e-12) if approx else np.array_equal(got_e, exp_e)):
             rec.fail(monitor="C05.partition.equiv", op=how, symptom="errors2 of the adaptive sum differ from the squared weights of all data", diff=["errors2"], detail=desc)
         for ax in range(d):
             b = bins[ax]
@@ -362,6 +377,118 @@ def case_dask(ctx, index, rng: random.Random):
     rec.case(desc, chunks < n and n > 10, cls="dask")
 
 
+def case_adaptive_missed(ctx, index, rng: random.Random):
+    """An adaptive operand that carries under / overflow (built with range=): the sum is either refused or it is the histogram
+    of all values over the final bins - weight that the grown bins now cover may not stay behind in under / overflow."""
+    import physt
+
+    rec = ctx.rec
+    rec.mon("C05.partition.equiv")
+    w = rng.choice([1.0, 0.5, 2.0])
+    lo, hi = 0.0, w * rng.randint(3, 8)
+    inside = [rng.uniform(lo, hi) for _ in range(rng.randint(1, 8))]
+    outside = [hi + w * rng.uniform(0.5, 6) for _ in range(rng.randint(1, 4))] + [lo - w * rng.uniform(0.5, 3) for _ in range(rng.randint(0, 2))]
+    A = np.array(inside + outside)
+    B = np.array([hi + w * rng.uniform(0.2, 8) for _ in range(rng.randint(1, 6))] + [lo - w * rng.uniform(0.2, 5) for _ in range(rng.randint(0, 3))])
+    try:
+        with warnings.catch_warnings():
+            warnings.simplefilter("ignore")
+            a = physt.h1(A, "fixed_width", bin_width=w, range=(lo, hi), adaptive=True)
+            b = physt.h1(B, "fixed_width", bin_width=w, adaptive=True)
+    except Exception as e:
+        rec.monitor_error("C05.adaptive_missed.make", e)
+        return
+    order = rng.choice(["a+b", "b+a", "a+=b", "b+=a", "sum"])
+    with attach.quiet():
+        had_missed = float(a.underflow) + float(a.overflow)
+    try:
+        with warnings.catch_warnings():
+            warnings.simplefilter("ignore")
+            if order == "a+b":
+                r = a + b
+            elif order == "b+a":
+                r = b + a
+            elif order == "a+=b":
+                r = a.copy()
+                r += b
+            elif order == "b+=a":
+                r = b.copy()
+                r += a
+            else:
+                r = sum([a, b])
+    except ValueError:
+        rec.case(["adaptive_missed", order, "refused"], True, cls=f"adaptive_missed/{order}/refused")
+        return
+    except Exception as e:
+        rec.fail(monitor="C05.partition.equiv", op=order, symptom=f"adding adaptive histograms raised {type(e).__name__}", diff=["raised"], detail={"error": str(e)[:160]})
+        return
+    with attach.quiet():
+        bins = np.asarray(r.bins, dtype=float)
+        allv = np.concatenate([A, B])
+        m = model.bin_1d(bins, allv, None, last_closed=False)
+        got = np.asarray(r.frequencies, dtype=float)
+        if got.shape != (len(bins),) or not np.array_equal(got, model.frac_array(m.freq)) or float(r.underflow) != float(m.underflow) or float(r.overflow) != float(m.overflow):
+            rec.fail(monitor="C05.partition.equiv", op=order, symptom="sum with an adaptive operand that carried under / overflow is not the histogram of all values over the final bins",
+                     diff=["frequencies", "overflow"], detail={"A": A.tolist(), "B": B.tolist(), "range": [lo, hi], "width": w, "bins": [bins[0].tolist(), bins[-1].tolist()],
+                                                                "got": got.tolist(), "expected": model.frac_array(m.freq).tolist(), "under_over": [float(r.underflow), float(r.overflow)],
+                                                                "expected_under_over": [float(m.underflow), float(m.overflow)]})
+    rec.case(["adaptive_missed", order, A.tolist(), B.tolist()], had_missed > 0, cls=f"adaptive_missed/{order}/accepted")
+
+
+def case_collection_sum(ctx, index, rng: random.Random):
+    """sum() over a collection whose members were created one after the other (adaptive or fixed bins) is the histogram of
+    all their values, and every member stays the histogram of its own values."""
+    import physt
+    from physt.histogram_collection import HistogramCollection
+
+    rec = ctx.rec
+    rec.mon("C05.partition.equiv")
+    w = rng.choice([1.0, 0.5, 2.0])
+    adaptive = rng.random() < 0.6
+    k = rng.randint(1, 4)
+    datas = [np.array([rng.uniform(-2, 2) * (1 + 2 * i * (rng.random() < 0.7)) + 3 * i * rng.choice([0, 1]) for _ in range(rng.randint(1, 8))]) for i in range(k)]
+    how = rng.choice(["facade", "create"])
+    try:
+        with warnings.catch_warnings():
+            warnings.simplefilter("ignore")
+            if adaptive:
+                if how == "facade":
+                    col = physt.collection({"m0": datas[0]}, "fixed_width", bin_width=w, adaptive=True)
+                else:
+                    col = HistogramCollection(binning=physt.h1(datas[0], "fixed_width", bin_width=w, adaptive=True).binning.copy())
+                    col.create("m0", datas[0])
+                for i in range(1, k):
+                    col.create(f"m{i}", datas[i])
+            else:
+                allv = np.concatenate(datas)
+                lo = math.floor(allv.min() / w) * w
+                edges = np.arange(lo, allv.max() + 2 * w, w)
+                col = physt.collection({f"m{i}": d_ for i, d_ in enumerate(datas)}, edges) if how == "facade" else HistogramCollection(binning=physt.h1(allv, edges).binning.copy())
+                if how == "create":
+                    for i in range(k):
+                        col.create(f"m{i}", datas[i])
+            total = col.sum()
+    except Exception as e:
+        rec.fail(monitor="C05.partition.equiv", op=f"collection.sum/{how}", symptom=f"creating members / summing a collection raised {type(e).__name__}", diff=["raised"],
+                 detail={"adaptive": adaptive, "members": [d_.tolist() for d_ in datas], "error": str(e)[:200]})
+        return
+    with attach.quiet():
+        for i, (m, d_) in enumerate(zip(col.histograms, datas)):
+            probs = snap.wellformed_problems(m)
+            mb = np.asarray(m.bins, dtype=float)
+            mm = model.bin_1d(mb, d_, None, last_closed=not adaptive)
+            if probs or not np.array_equal(np.asarray(m.frequencies, dtype=float), model.frac_array(mm.freq)):
+                rec.fail(monitor="C05.partition.equiv", op=f"collection.create/{how}", symptom="a member of the collection is no longer the histogram of its own values (or ill-formed)", diff=["frequencies"],
+                         detail={"member": i, "problems": probs[:3], "adaptive": adaptive, "got": np.asarray(m.frequencies).tolist(), "bins": [mb[0].tolist(), mb[-1].tolist()] if len(mb) else []})
+                break
+        tb = np.asarray(total.bins, dtype=float)
+        tm = model.bin_1d(tb, np.concatenate(datas), None, last_closed=not adaptive)
+        if not np.array_equal(np.asarray(total.frequencies, dtype=float), model.frac_array(tm.freq)) or float(total.total) != sum(len(d_) for d_ in datas):
+            rec.fail(monitor="C05.partition.equiv", op=f"collection.sum/{how}", symptom="sum() over the collection is not the histogram of all members' values", diff=["frequencies"],
+                     detail={"adaptive": adaptive, "got": np.asarray(total.frequencies).tolist(), "expected": model.frac_array(tm.freq).tolist(), "members": [d_.tolist() for d_ in datas]})
+    rec.case(["collection_sum", adaptive, how, [d_.tolist() for d_ in datas]], k >= 2, cls=f"collection_sum/{'adaptive' if adaptive else 'fixed'}/{how}")
+
+
 def case_from_arrays(ctx, index, rng: random.Random):
     """Operands built directly from arrays of contents (the constructor keeps the arrays it is given): one array serving as
     contents and as squared errors, or as the contents of both operands. Sums and += are still element-wise sums of what
@@ -423,6 +550,8 @@ def case_from_arrays(ctx, index, rng: random.Random):
 def run(ctx):
     attach_monitors()
     ctx.run_cases(ctx.scale(60, 400), case_from_arrays, salt="arrays")
+    ctx.run_cases(ctx.scale(60, 400), case_adaptive_missed, salt="admissed")
+    ctx.run_cases(ctx.scale(60, 400), case_collection_sum, salt="colsum")
     ctx.run_cases(ctx.scale(300, 2500), case_static, salt="static")
     ctx.run_cases(ctx.scale(300, 2500), case_adaptive, salt="adaptive")
     ctx.run_cases(ctx.scale(80, 400), case_refusal, salt="refusal")
